@@ -36,7 +36,7 @@ AttrScaled(c) ==
         IN IF c.hyp \/ c.x[n][s + q] = ch - 1 THEN val ELSE 0]]]
 
 \* c = [x, A, args, start, end, bs, out, T, tlo, thi, hyp, raw]
-Expected(c) ==
+ISMExpected(c) ==
     IF ~WindowOK(c.x[1], c.start, c.end) THEN [zone |-> "either", y0 |-> <<>>, yhat |-> <<>>, y0b |-> <<>>, yhatb |-> <<>>, attr |-> <<>>]
     ELSE IF c.raw THEN
         [zone |-> "accept", y0 |-> Y0(c, c.T, 0), yhat |-> YHat(c, c.T, 0),
